@@ -23,14 +23,17 @@
      join_req c, mid           join_resp c, err, mid, gen
      sync_req c, mid, gen      sync_resp c, err, claims
      hb c, mid, gen, err       commit c, mid, gen, err, blocks <<<<p, off>>..>>, applied
-     leave c, mid, err         meta_change      hang c     panic c
+     leave c, mid, err         meta_change      hang c, what     panic c
+     coord_down                the coordinator (and seed broker) became unreachable: premise of final_commit_after_cleanup gone
+     claim_fail c, p           the simulated broker failed the ListOffsets call of a claim's start (data-plane fault):
+                               the claim cannot start, which ends the session like a claim that returned
      (anything else is ignored)
 
    Clauses
      setup_once_before_claims, at_most_one_claim_per_partition, exactly_one_claim_unless_ending,
      claim_starts_at_committed_or_initial, cleanup_once_after_claims_returned,
      final_commit_after_cleanup, consume_returns_last, requests_carry_issued_identity,
-     fenced_member_rejoins_fresh, no_skip_across_sessions, consume_hang, consume_panic     *)
+     fenced_member_rejoins_fresh, no_skip_across_sessions, consume_hang, close_hang, consume_panic *)
 EXTENDS Integers, Sequences, FiniteSets
 
 OC == {"c1", "c2"}
@@ -61,6 +64,7 @@ ObsInit ==
    cur |-> [c \in OC |-> NoPair],            \* identity the coordinator issued last
    ids |-> [c \in OC |-> {}],                \* member ids ever issued to the client
    fenced |-> [c \in OC |-> FALSE],          \* last join/sync answer was UNKNOWN_MEMBER_ID
+   cdown |-> FALSE,                          \* the coordinator was made unreachable (no commit can arrive)
    hung |-> FALSE,                           \* the watchdog fired: the scenario is torn down by force afterwards
    bad |-> {}]
 
@@ -136,7 +140,7 @@ OConsumeRet(o, e) ==
   LET c == e.c IN
   [o EXCEPT !.ph[c] = "out",
             !.bad = W(o.ph[c] = "setup", "cleanup_once_after_claims_returned")
-                    \cup W(o.ph[c] = "cleanup" /\ o.auto # "off" /\ ~FinalCommitOk(o, c), "final_commit_after_cleanup")]
+                    \cup W(o.ph[c] = "cleanup" /\ o.auto # "off" /\ ~o.cdown /\ ~FinalCommitOk(o, c), "final_commit_after_cleanup")]
 
 OJoinReq(o, e) ==
   LET c == e.c IN
@@ -178,9 +182,16 @@ OCommit(o, e) ==
 OLeave(o, e) ==
   [o EXCEPT !.bad = W(e.mid \notin o.ids[e.c], "requests_carry_issued_identity")]
 
+\* the watchdog found the client blocked: in Consume (or between calls), or in Close after Consume had returned
+\* (a client that sits in a healthy session nobody asked to end is only collateral of somebody else's hang)
+HangClause(o, e) ==
+  IF e.what = "Close" THEN "close_hang"
+  ELSE IF o.ph[e.c] = "setup" /\ ~Ending(o, e.c) THEN "scenario_stalled"
+  ELSE "consume_hang"
+
 ObsStep(o, e) ==
   CASE e.ev = "reset" -> OReset(o, e)
-    [] o.hung /\ e.ev # "reset" -> [o EXCEPT !.bad = IF e.ev = "hang" THEN {"consume_hang"} ELSE {}]
+    [] o.hung /\ e.ev # "reset" -> [o EXCEPT !.bad = IF e.ev = "hang" THEN {HangClause(o, e)} ELSE {}]
     [] e.ev = "consume_call" -> OConsumeCall(o, e)
     [] e.ev = "consume_ret" -> OConsumeRet(o, e)
     [] e.ev = "cancel" -> [o EXCEPT !.cancelled[e.c] = TRUE, !.bad = {}]
@@ -199,7 +210,9 @@ ObsStep(o, e) ==
     [] e.ev = "commit" -> OCommit(o, e)
     [] e.ev = "leave" -> OLeave(o, e)
     [] e.ev = "meta_change" -> [o EXCEPT !.metaChanged = TRUE, !.bad = {}]
-    [] e.ev = "hang" -> [o EXCEPT !.hung = TRUE, !.bad = {"consume_hang"}]
+    [] e.ev = "hang" -> [o EXCEPT !.hung = TRUE, !.bad = {HangClause(o, e)}]
+    [] e.ev = "coord_down" -> [o EXCEPT !.cdown = TRUE, !.bad = {}]
+    [] e.ev = "claim_fail" -> [o EXCEPT !.sessEnd[e.c] = TRUE, !.bad = {}]
     [] e.ev = "panic" -> [o EXCEPT !.bad = {"consume_panic"}]
     [] OTHER -> [o EXCEPT !.bad = {}]
 
